@@ -6,5 +6,6 @@ CONSTANTS
   Runners = {1, 2}
   Keys = {"k1", "k2", "k3"}
   MaxLRU = 2
+  Recheck = TRUE
 INVARIANTS OneOwner NotIdleHeld IdleIsFull CleanAtScan RightProgram LRUBounded LRUConsistent
 CHECK_DEADLOCK FALSE
